@@ -186,6 +186,8 @@ class Interp(Ops, B.BuiltinsMixin):
             return self.ext_models[key]
         if modname == "typing" or modname == "typing_extensions" or modname == "collections.abc":
             return Opaque(key)
+        if any(k.startswith(key + ".") for k in self.ext_models):
+            return ExtModuleV(key)          # `from pkg import submodule` of an external package with modelled members
         raise Unsupported(f"no model for external name {key}")
 
     # ------------------------------------------------------------------ functions / classes
@@ -274,7 +276,12 @@ class Interp(Ops, B.BuiltinsMixin):
             elif isinstance(st, ast.Expr):
                 continue
             elif isinstance(st, ast.AnnAssign):
-                if attrs_kind and isinstance(st.target, ast.Name):
+                ann = _dotted(st.annotation.value if isinstance(st.annotation, ast.Subscript) else st.annotation) or ""
+                if ann.split(".")[-1] == "ClassVar":
+                    # attrs / dataclasses leave ClassVar-annotated names alone: a plain class attribute (one object shared by all instances)
+                    if st.value is not None and isinstance(st.target, ast.Name):
+                        self._class_assign(cls, st.target.id, st.value, cfr)
+                elif attrs_kind and isinstance(st.target, ast.Name):
                     fields.append(self._attrs_field(st.target.id, st.value, cfr, cls))
                 elif st.value is not None and isinstance(st.target, ast.Name):
                     self._class_assign(cls, st.target.id, st.value, cfr)
@@ -560,6 +567,8 @@ class Interp(Ops, B.BuiltinsMixin):
                 v = self.call(f.factory, [], {})
             elif f.has_default:
                 v = f.default
+            elif not f.init:
+                continue          # init=False without a default: attrs leaves the attribute unset
             else:
                 self.raise_py("TypeError", f"{cls.name}.__init__() missing argument {f.init_name!r}")
             if f.converter is not None:
